@@ -238,6 +238,43 @@ theorem amplitude_constraint_simplex (n : Nat) (params : List Rat) (mask : Optio
 example : handleConstraint 2 [1/2, 1/2, 3, 5] none
     = some ⟨[true, true, true, true], 2, 0, [1/2, 1/2, 3, 5]⟩ := by decide +kernel
 
+/-! ## What `_exponential_mle_optimize` hands to the optimiser and reports back -/
+
+/-- `reported_parameters_spec`: whenever `_handle_amplitude_constraint` accepts, for every answer `x` of the optimiser
+    with one value per fitted parameter: the reported vector `current_params[fitted_param_mask] = x` has `2n`
+    entries, holds `x` in the fitted slots (in order), leaves every parameter that is not fitted at the value the
+    constraint handling gave it, and the start vector handed over (`current_params[fitted_param_mask]`) put back
+    reproduces the initial guess. -/
+theorem reported_parameters_spec (n : Nat) (params : List Rat) (mask : Option (List Bool)) (c : Constraint)
+    (h : handleConstraint n params mask = some c) (x : List Rat) (hx : x.length = c.fitted.count true) :
+    (scatter c.params c.fitted x).length = 2 * n
+    ∧ gather (scatter c.params c.fitted x) c.fitted = x
+    ∧ (∀ i, c.fitted.getD i false = false → (scatter c.params c.fitted x)[i]? = c.params[i]?)
+    ∧ scatter c.params c.fitted (gather c.params c.fitted) = c.params := by
+  have hlen : c.fitted.length = c.params.length ∧ c.params.length = 2 * n := by
+    obtain ⟨hl1, hl2, _, hcase⟩ := handleConstraint_cases n params mask c h
+    rcases hcase with ⟨h1, rfl⟩ | ⟨_, rfl⟩
+    · obtain ⟨l1, l2⟩ := fixFree_length n params ((fixedOf params mask).map (!·))
+        (1 - ampSum n params (fixedOf params mask))
+      simp only [l1, l2, List.length_map, hl1, hl2, and_self]
+    · simp only [List.length_map, hl1, hl2, and_self]
+  exact ⟨by rw [scatter_length, hlen.2], gather_scatter _ _ _ hlen.1 hx,
+    fun i hi => scatter_fixed _ _ _ i hi, scatter_gather _ _⟩
+
+/-- derive → query: with exactly one free amplitude the amplitudes of the reported vector sum to one WHATEVER the
+    optimiser answers (none of them is among the fitted parameters) -/
+theorem one_free_amplitude_reported_on_simplex (n : Nat) (params : List Rat) (mask : Option (List Bool))
+    (c : Constraint) (h : handleConstraint n params mask = some c)
+    (h1 : countTrue n ((fixedOf params mask).map (!·)) = 1) (x : List Rat) :
+    ((scatter c.params c.fitted x).take n).sum = 1 := by
+  obtain ⟨_, _, hsum, hfit, _⟩ := amplitude_constraint_one_free n params mask c h h1
+  rw [take_scatter_of_countTrue_zero n c.params c.fitted x hfit, hsum]
+
+example : handleConstraint 2 [1/4, 1/8, 3, 5] (some [true, false, false, true])
+      = some ⟨[false, false, true, false], 0, 1, [1/4, 3/4, 3, 5]⟩
+    ∧ scatter [1/4, 3/4, 3, 5] [false, false, true, false] [(7 : Rat)] = [1/4, 3/4, 7, 5]
+    ∧ gather [(1/4 : Rat), 3/4, 3, 5] [false, false, true, false] = [3] := by decide +kernel
+
 /-! ## One component, no upper limit -/
 
 /-- core `one_component_mle`: for a one-component model without upper limit (any amplitude value, per-
